@@ -93,10 +93,12 @@ def crossratio(
         raise TypeError(f"Unsupported combination of types: a: {type(a)}, b: {type(b)}, c: {type(c)}, d: {type(d)}")
 
     if a.dim > 2 or (from_point is None and a.dim == 2):
-        if not np.all(is_collinear(a, b, c, d)):
+        # is_collinear only tests whether the points are coplanar in dimensions higher than two
+        l = join(a, b)
+        if not (np.all(l.contains(c)) and np.all(l.contains(d))):
             raise NotCollinear("The points are not collinear: " + str([a, b, c, d]))
 
-        basis = np.stack([a.array, b.array], axis=-2)
+        basis = np.stack(np.broadcast_arrays(a.array, b.array), axis=-2)
         a = matvec(basis, a.array)
         b = matvec(basis, b.array)
         c = matvec(basis, c.array)
